@@ -16,6 +16,7 @@ import (
 	"math/rand"
 	"os"
 	"runtime"
+	"runtime/debug"
 	"time"
 )
 
@@ -236,6 +237,9 @@ func Main(harnesses map[string]func()) {
 				os.Exit(0)
 			}
 			fmt.Printf("OUTCOME panic: %v\n", r)
+			if os.Getenv("VERIFRT_STACK") != "" {
+				fmt.Printf("%s\n", debug.Stack())
+			}
 			os.Exit(0)
 		}
 		fmt.Println("OUTCOME ok")
